@@ -130,6 +130,7 @@ static std::vector<Scenario> make_scenarios(bool thorough) {
                                    {irfftop(24, 16), rfftop(15, 17), ifftop(16, 18), rfftop(30, 19), fftop(7, 20)}}, 1);
         free_fn("H2.irfft-lengths.t3", {{irfftop(12, 24), irfftop(20, 25)}, {irfftop(14, 26), irfftop(24, 27)},
                                         {Op{"IfftPlanR(16)", [] { IfftPlanR p(16); return H(p.solve(cletter(9, 28))); }}, irfftop(10, 29)}}, 1);
+        free_fn("H2.fft-four-threads.t4", {{fftop(12, 61), rfftop(30, 62)}, {fftop(60, 63), irfftop(20, 64)}, {rfftop(15, 65), fftop(53, 66)}, {ifftop(45, 67), fftop(12, 68)}}, 1);
         free_fn("H2.fft-same-length.t3", {{fftop(12, 21)}, {fftop(12, 22)}, {rfftop(12, 23)}}, 2);
         free_fn("H2.xcorr-fftfilter.t2",
                 {{Op{"xcorr", [] { return H(xcorr(rletter(20, 31), rletter(9, 32))); }},
